@@ -1413,6 +1413,9 @@ func c14PasswordHashedWhole(c *Check, rule string) {
 				}
 				if fid, isID := ast.Unparen(pn.Fun).(*ast.Ident); isID {
 					if _, isB := info.Uses[fid].(*types.Builtin); isB {
+						if fid.Name == "len" {
+							return true // measuring is not truncating (verifyBcrypt refuses by length)
+						}
 						msg = "line " + itoa(p0(p, id.Pos())) + ": the password is an argument of the builtin " + fid.Name + " (`copy` into a buffer of fixed size truncates silently; a length taken for a bound does the same)"
 						return true
 					}
@@ -1699,5 +1702,103 @@ func c07AlignmentOnALabels(c *Check, rule string) {
 	}
 	if k < 2 {
 		c.Fail(rule, "isAligned:params", r.FI.Decl.Pos(), "undecided: isAligned has fewer than two domain parameters")
+	}
+}
+
+// ---- C14.R11: bcrypt never sees more than it hashes.
+// bcrypt uses the first 72 bytes of a password. x/crypto's GenerateFromPassword refuses longer ones
+// (ErrPasswordTooLong), so no stored hash belongs to a password of more than 72 bytes – but CompareHashAndPassword
+// does not look at the length: a login with the 72-byte password that was set PLUS any suffix compares equal. "Succeeds
+// exactly when the supplied password is the one most recently set": every call of CompareHashAndPassword in pass_table
+// is unreachable in the world 'the supplied password has 73 bytes'.
+func c14BcryptLengthChecked(c *Check, rule string) {
+	c.Rule(rule, "pass_table: bcrypt.CompareHashAndPassword is only reached for passwords of at most 72 bytes (the length GenerateFromPassword accepts): a longer password – the stored one plus a suffix – is refused, not compared by its first 72 bytes", 1)
+	p := c.P
+	pk := p.Pkg("internal/auth/pass_table")
+	if pk == nil {
+		c.Fail(rule, "package", token.NoPos, "anchor unresolved")
+		return
+	}
+	info := pk.TypesInfo
+	n := 0
+	p.AllFuncs([]*packagesPkg{pk}, func(fi *FuncInfo) {
+		if fi.Decl.Body == nil || strings.HasSuffix(p.Fset.Position(fi.Decl.Pos()).Filename, "_test.go") {
+			return
+		}
+		fi = p.DeclOf(fi.Obj)
+		if fi == nil || fi.Decl.Body == nil {
+			return
+		}
+		fl := p.FlowOfFunc(fi)
+		for _, pt := range fl.Points() {
+			if pt.Node() == nil {
+				continue
+			}
+			for _, call := range callsAt(pt.Node()) {
+				fn := callee(info, call)
+				if fn == nil || fn.Pkg() == nil || !strings.HasSuffix(fn.Pkg().Path(), "/bcrypt") || fn.Name() != "CompareHashAndPassword" || len(call.Args) != 2 {
+					continue
+				}
+				n++
+				c.SawFunc(fi.Name())
+				// the password operand: a conversion of a variable, or the variable
+				var pw types.Object
+				ast.Inspect(call.Args[1], func(x ast.Node) bool {
+					if id, ok := x.(*ast.Ident); ok && pw == nil {
+						if v, isVar := info.Uses[id].(*types.Var); isVar {
+							pw = v
+						}
+					}
+					return true
+				})
+				if pw == nil {
+					c.Fail(rule, fi.Name()+":compare"+itoa(n), call.Pos(), "undecided: the password operand "+exprStr(call.Args[1])+" is not a variable")
+					continue
+				}
+				world := fl.World(func(atom ast.Expr) (bool, bool) {
+					be, ok := ast.Unparen(atom).(*ast.BinaryExpr)
+					if !ok {
+						return false, false
+					}
+					lc, isCall := ast.Unparen(be.X).(*ast.CallExpr)
+					if !isCall || len(lc.Args) != 1 {
+						return false, false
+					}
+					if id, isID := ast.Unparen(lc.Fun).(*ast.Ident); !isID || id.Name != "len" || !mentions(info, lc.Args[0], pw) {
+						return false, false
+					}
+					tv, has := info.Types[be.Y]
+					if !has || tv.Value == nil {
+						return false, false
+					}
+					cv, isInt := constInt(tv)
+					if !isInt {
+						return false, false
+					}
+					const val = int64(73)
+					switch be.Op {
+					case token.LSS:
+						return val < cv, true
+					case token.LEQ:
+						return val <= cv, true
+					case token.GTR:
+						return val > cv, true
+					case token.GEQ:
+						return val >= cv, true
+					case token.EQL:
+						return val == cv, true
+					case token.NEQ:
+						return val != cv, true
+					}
+					return false, false
+				})
+				here := pt
+				path, found := fl.Reach(Query{From: []Pt{fl.Entry()}, Inclusive: true, Target: func(q Pt) bool { return q == here }, AvoidEdge: world})
+				c.Hold(rule, fi.Name()+":compare"+itoa(n), call.Pos(), !found, "a password of 73 bytes reaches bcrypt.CompareHashAndPassword ("+fl.Describe(path)+"): bcrypt compares the first 72 bytes only and GenerateFromPassword never stored a longer password – after a 72-byte password was set, that password followed by anything authenticates")
+			}
+		}
+	})
+	if n == 0 {
+		c.Fail(rule, "sites", token.NoPos, "anchor unresolved: pass_table does not call bcrypt.CompareHashAndPassword")
 	}
 }
